@@ -55,6 +55,16 @@ Definition pipeline (spec K : state -> dist) (mix : mixture) (h : heralds) (p : 
                else (selected + not_selected) / (selected + not_selected + not_selected_physical) * pre;
      p_logical := if Qc_eq_dec (selected + not_selected) 0 then 0 else selected / (selected + not_selected) |}.
 
+(* Processor.samples: the filter handed to the sampling simulator.  [old_code = true] is the code before /repo commit
+   5caa1a68 (the user's filter alone); the current code adds the photons expected on the heralded modes, as
+   ISimulator.min_detected_photons_filter does for strong simulation. *)
+Definition sampler_filter (old_code : bool) (flt : nat) (h : heralds) : nat :=
+  if old_code then flt else (flt + herald_total h)%nat.
+Definition processor_pipeline_cfg (old_code : bool) (spec K : state -> dist) (mix : mixture) (h : heralds) (p : ps)
+    (flt : nat) : pipeline_out := pipeline spec K mix h p (sampler_filter old_code flt h) false.
+Definition processor_pipeline := processor_pipeline_cfg false.
+Definition processor_pipeline_old_code := processor_pipeline_cfg true.
+
 (* ================================================================ (ii) the loops *)
 Record lcfg := { c_max_samples : nat; c_max_shots : option nat; c_F : nat; c_h : heralds; c_ps : ps; c_keep : bool }.
 Record lstate := { l_out : list state; l_idx : nat; l_batch : nat; l_notsel : nat; l_notphys : nat;
@@ -102,16 +112,20 @@ Definition prepare_samples (max_samples : nat) (max_shots : option nat) : nat :=
    x <= max_shots because physical_perf = P(n >= filter) <= P(n > 0) = 1 - zpp when the filter is >= 1. *)
 Definition ceil_nat (q : Qc) : nat := Z.to_nat (Qceiling (this q)).
 Definition nat_q (n : nat) : Qc := Q2Qc (inject_Z (Z.of_nat n)).
-Definition scale_shots (F : nat) (max_shots : option nat) (x : Qc) : option nat :=
+(* [old_code = true] is the code before /repo commit 869f2c44 (max_shots = ceil(x), unclamped); the current code
+   takes min(max_shots, ceil(x)). *)
+Definition scale_shots_cfg (old_code : bool) (F : nat) (max_shots : option nat) (x : Qc) : option nat :=
   match max_shots with
-  | Some k => if (2 <=? F)%nat then Some (ceil_nat x) else Some k
+  | Some k => if (2 <=? F)%nat then Some (if old_code then ceil_nat x else Nat.min k (ceil_nat x)) else Some k
   | None => None
   end.
-Definition scale_prepare (F : nat) (max_shots : option nat) (x : Qc) (prep : nat) : nat :=
+Definition scale_prepare_cfg (old_code : bool) (F : nat) (max_shots : option nat) (x : Qc) (prep : nat) : nat :=
   match max_shots with
-  | Some k => if (2 <=? F)%nat then Nat.min (ceil_nat x) prep else prep
+  | Some k => if (2 <=? F)%nat then Nat.min (if old_code then ceil_nat x else Nat.min k (ceil_nat x)) prep else prep
   | None => prep
   end.
+Definition scale_shots := scale_shots_cfg false.
+Definition scale_prepare := scale_prepare_cfg false.
 
 (* _perfect_sampling_no_selection: the sizes of the successive backend.samples(..) calls *)
 Fixpoint perfect_batches (fuel n acquired : nat) : list nat :=
@@ -126,18 +140,20 @@ Definition sum_nat (l : list nat) : nat := fold_right Nat.add 0%nat l.
    batch comes from the source (prepare_samples inputs) or is empty (distribution input).
    Result: the emitted samples (fast path: their number only matters, the oracle supplies them). *)
 Inductive sim_result := SimEmpty | SimFast (batches : list nat) | SimLoop (s : lstate).
-Definition sim_samples (c : lcfg) (herald_det_ok fast source_defined : bool) (x : Qc) (os : list state) : sim_result :=
+Definition sim_samples_cfg (old_code : bool) (c : lcfg) (herald_det_ok fast source_defined : bool) (x : Qc) (os : list state) : sim_result :=
   if negb herald_det_ok then SimEmpty else
   let prep := prepare_samples (c_max_samples c) (c_max_shots c) in
   if fast then (if (prep =? 0)%nat then SimEmpty else SimFast (perfect_batches prep prep 0))
   else if (prep =? 0)%nat then SimEmpty
   else
-    let shots' := scale_shots (c_F c) (c_max_shots c) x in
-    let prep' := scale_prepare (c_F c) (c_max_shots c) x prep in
+    let shots' := scale_shots_cfg old_code (c_F c) (c_max_shots c) x in
+    let prep' := scale_prepare_cfg old_code (c_F c) (c_max_shots c) x prep in
     let c' := {| c_max_samples := c_max_samples c; c_max_shots := shots'; c_F := c_F c; c_h := c_h c;
                  c_ps := c_ps c; c_keep := c_keep c |} in
     if (prep' =? 0)%nat then SimEmpty     (* `sample_generator if prepare_samples else None` *)
     else SimLoop (run c' os (init (if source_defined then prep' else 0%nat))).
+Definition sim_samples := sim_samples_cfg false.              (* the code as it is now *)
+Definition sim_samples_old_code := sim_samples_cfg true.    (* historical: before 869f2c44 *)
 Definition sim_len (r : sim_result) : nat :=
   match r with SimEmpty => 0%nat | SimFast b => sum_nat b | SimLoop s => length (l_out s) end.
 
